@@ -599,14 +599,16 @@ fn lex_char(
             string.push(next_char);
         }
 
-        // Emit the expected closing quote error.
+        // Emit the expected closing quote error, for everything from the second character up to
+        // and including the closing quote.
+        let span = span_until(l, next_index);
         error(
             l.handler,
             LexError {
                 kind: LexErrorKind::ExpectedCloseQuote {
                     position: next_index,
                 },
-                span: span(l, next_index, next_index + string.len()),
+                span,
             },
         );
 
